@@ -82,6 +82,7 @@ type index interface {
 	parOr(par int, os []index)
 	add(o index)
 	increment(cols []uint64)
+	incrementAll()
 	clone() index
 	retainSet(cols []uint64) index
 	marshalRT() (index, error)
@@ -140,6 +141,9 @@ func (x *ix64) readCheck(cols []uint64) string {
 		}
 		if ok != x.b.ValueExists(c) {
 			return fmt.Sprintf("ValueExists disagrees with GetBigValue at column %d", c)
+		}
+		if ok && x.b.IsNegative(c) != (v.Sign() < 0) {
+			return fmt.Sprintf("IsNegative disagrees with GetBigValue at column %d", c)
 		}
 	}
 	allInt := true
@@ -260,6 +264,7 @@ func (x *ix64) parOr(par int, os []index) {
 }
 func (x *ix64) add(o index)             { x.b.Add(o.(*ix64).b) }
 func (x *ix64) increment(cols []uint64) { x.b.Increment(bm64of(cols)) }
+func (x *ix64) incrementAll()           { x.b.IncrementAll() }
 func (x *ix64) clone() index            { return &ix64{x.b.Clone(), x.big, x.k} }
 func (x *ix64) retainSet(cols []uint64) index {
 	return &ix64{x.b.NewBSIRetainSet(bm64of(cols)), x.big, x.k}
@@ -407,6 +412,7 @@ func (x *ix32) parOr(par int, os []index) {
 }
 func (x *ix32) add(o index)             { x.b.Add(o.(*ix32).b) }
 func (x *ix32) increment(cols []uint64) { x.b.Increment(bm32of(cols)) }
+func (x *ix32) incrementAll()           { x.b.IncrementAll() }
 func (x *ix32) clone() index            { return &ix32{x.b.Clone()} }
 func (x *ix32) retainSet(cols []uint64) index {
 	return &ix32{x.b.NewBSIRetainSet(bm32of(cols))}
@@ -716,7 +722,11 @@ func (e *bsiExec) do(ev *BEvent) {
 	case "BAdd":
 		x.add(e.slots[c.Y])
 	case "BIncrement":
-		x.increment(cc)
+		if c.All { // the script lists every existing column: IncrementAll must do the same
+			x.incrementAll()
+		} else {
+			x.increment(cc)
+		}
 	case "BClone":
 		n := x.clone()
 		ev.Ret = map[string]any{"err": false, "equal": n.equals(x) && x.equals(n)}
@@ -1051,7 +1061,16 @@ func cmdBSI(args []string) {
 					}
 				case 9: // Increment existing columns, non-negative, unscaled traces only
 					if e.k == 0 && allNonNeg(x) {
-						e.run(BCall{Op: "BIncrement", X: x, Cols: existing(x)})
+						if r.Intn(3) == 0 {
+							all := []int{}
+							for a := range e.current(x) {
+								all = append(all, a)
+							}
+							sort.Ints(all)
+							e.run(BCall{Op: "BIncrement", X: x, Cols: &all, All: true})
+						} else {
+							e.run(BCall{Op: "BIncrement", X: x, Cols: existing(x)})
+						}
 					}
 				case 10:
 					e.run(BCall{Op: "BClone", X: x, Dst: 1 + r.Intn(3)})
